@@ -33,8 +33,9 @@ VARIABLE hist
 gvars == <<vars, hist>>
 
 \* pseudo random octets: the Lehmer style generator x -> 75 x + 74 mod 65537
-RndSeq(s, n) == LET X[i \in 0..n] == IF i = 0 THEN (s * 7919 + 104729) % 65537 ELSE (X[i - 1] * 75 + 74) % 65537
-                IN  [i \in 1..n |-> (X[i] \div 3) % 256]
+RECURSIVE RndFrom(_, _, _)
+RndFrom(x, n, acc) == IF n = 0 THEN acc ELSE RndFrom((x * 75 + 74) % 65537, n - 1, Append(acc, (x \div 3) % 256))
+RndSeq(s, n) == RndFrom((((s * 7919 + 104729) % 65537) * 75 + 74) % 65537, n, <<>>)
 
 \* toy block cipher: for every key a permutation of the 16 octet blocks (rotation by one octet plus key
 \* and position dependent constants); deliberately cheap - TLC evaluates it about 20,000 times
@@ -44,12 +45,15 @@ Toy(k, b) == IF Len(k) # 16 \/ Len(b) # 16 THEN Bottom
 FnIndex(f) == CASE f = "c1" -> 1 [] f = "s1" -> 2 [] f = "f4" -> 3 [] f = "f5" -> 4 [] f = "f6" -> 5
                 [] f = "g2" -> 6 [] f = "aes" -> 7 [] f = "sk" -> 8
 
-ZeroArgs(f)   == Zeros(ArgLen(f))
-FFArgs(f)     == [p \in 1..ArgLen(f) |-> IF p \in FlagPos(f) THEN 1 ELSE 255]
-RndArgs(f, i) == LET r == RndSeq(Seed * 1000 + FnIndex(f) * 97 + i, ArgLen(f))
-                 IN  [p \in 1..ArgLen(f) |-> IF p \in FlagPos(f) THEN r[p] % 2 ELSE r[p]]
+\* (no LET inside a function constructor: TLC would re-evaluate it for every element)
+ZeroArgs(f)       == Zeros(ArgLen(f))
+MaskFlags(f, r)   == [p \in 1..Len(r) |-> IF p \in FlagPos(f) THEN r[p] % 2 ELSE r[p]]
+FFArgs(f)         == MaskFlags(f, [p \in 1..ArgLen(f) |-> 255])
+RndArgs(f, i)     == MaskFlags(f, RndSeq(Seed * 1000 + FnIndex(f) * 97 + i, ArgLen(f)))
 HotArgs(f, p, v)  == [ZeroArgs(f) EXCEPT ![p] = v]
-RHotArgs(f, p)    == LET b == RndArgs(f, 0) IN [b EXCEPT ![p] = IF p \in FlagPos(f) THEN 1 - b[p] ELSE 255 - b[p]]
+Flip(f, b, p)     == [b EXCEPT ![p] = IF p \in FlagPos(f) THEN 1 - b[p] ELSE 255 - b[p]]
+RHotArgs(f, p)    == Flip(f, RndArgs(f, 0), p)
+With3(b, p, x, y, z) == [b EXCEPT ![p] = x, ![p + 1] = y, ![p + 2] = z]
 
 Call(f, a, tag) == [f |-> f, a |-> a, tag |-> tag]
 
@@ -60,9 +64,9 @@ PureCalls ==
             \cup (IF RHot THEN {Call(f, RHotArgs(f, p), <<"rhot", p>>) : p \in 1..ArgLen(f)} ELSE {})
             \cup {Call(f, RndArgs(f, i), <<"rnd", i>>) : i \in 1..NRnd}
           : f \in Fns }
-    \cup {Call("f6", [RndArgs("f6", 0) EXCEPT ![65] = io, ![66] = oob, ![67] = auth], <<"io", io, oob, auth>>)
+    \cup {Call("f6", With3(RndArgs("f6", 0), 65, io, oob, auth), <<"io", io, oob, auth>>)
             : io \in 0..4, oob \in 0..1, auth \in {0, 1, 4, 5, 8, 9, 13, 45}}
-    \cup {Call("f4", [RndArgs("f4", 0) EXCEPT ![81] = z], <<"z", z>>) : z \in {0, 1, 128, 129, 255}}
+    \cup {Call("f4", [RndArgs("f4", 1) EXCEPT ![81] = z], <<"z", z>>) : z \in {0, 1, 128, 129, 255}}
     \cup {[f |-> Vectors[i].f, a |-> Vectors[i].a, tag |-> <<"vec", i>>, expect |-> Vectors[i].x] : i \in 1..Len(Vectors)}
 
 \* --- RNG streams for create_passkey: <<tail seed, stream octets>> ----------------------------------
